@@ -26,6 +26,7 @@ import warnings
 from fractions import Fraction
 
 sys.path.insert(0, os.path.dirname(os.path.dirname(os.path.abspath(__file__))))
+sys.path.insert(0, os.path.dirname(os.path.abspath(__file__)))
 import vlib
 from vlib import Broken, Failure, Check
 
@@ -75,12 +76,17 @@ def gen_net(rng, big=False, hyd=False):
         if hyd:
             d = rng.choice([0.1, 0.15, 0.2, 0.3])
         closed = (not tree) and rng.random() < 0.25
+        if not hyd and not closed and rng.random() < 0.15:
+            np_.append("cvstatus")
         return dict(name="P%d" % np_[0], len=float(rng.choice([10, 25, 64, 100, 150, 300, 512])), diam=d,
                     rough=float(rng.choice([80, 100, 120, 140])), minor=rng.choice([0.0, 0.0, 0.0, 0.5, 2.0, 10.0]),
                     status="CLOSED" if closed else "OPEN", cv=rng.random() < 0.15, verts=[], user_closed=False)
 
     def add_pipe(a, b, tree=False):
         p = pipe_attrs(tree)
+        if np_[-1] == "cvstatus":  # initial_status CV, as the [PIPES] status column "CV" can be given to add_pipe
+            np_.pop()
+            p["status"], p["cv"] = "CV", True
         if rng.random() < 0.5:
             a, b = b, a
         p["a"], p["b"] = a, b
@@ -95,7 +101,7 @@ def gen_net(rng, big=False, hyd=False):
                 pumps.append(dict(name="PU1", a="R1", b=j, power=float(rng.choice([5000, 10000]))))
             else:
                 p = add_pipe("R1", j, True)
-                p["cv"] = False
+                p["cv"], p["status"] = False, "OPEN"
         else:
             prev = rng.choice(placed[-3:]) if (big and rng.random() < 0.6) else rng.choice(placed)
             if rng.random() < 0.12:
@@ -107,7 +113,7 @@ def gen_net(rng, big=False, hyd=False):
         placed.append(j)
     for s in specials[1:]:
         p = add_pipe(rng.choice(placed), s, True)
-        p["cv"] = False
+        p["cv"], p["status"] = False, "OPEN"
     # loops, parallel pipes, dead-end chains
     for _ in range(rng.randint(0, 2 + nj // 3)):
         a, b = rng.sample(placed, 2) if len(placed) >= 2 else (placed[0], "R1")
@@ -492,7 +498,8 @@ class SplitRunner:
             pipes = list(d["pipes"])
             ctx.rng.shuffle(pipes)
             gp = (d.get("grid") or {}).get("pipe")
-            pipes.sort(key=lambda p: -int(len(p["verts"]) > 0) - int(p["cv"]) - 2 * int(p["name"] == gp))
+            adj = lambda p: any(p["a"] in (o["a"], o["b"]) or p["b"] in (o["a"], o["b"]) for o in d["pumps"] + d["valves"])
+            pipes.sort(key=lambda p: -int(len(p["verts"]) > 0) - int(p["cv"]) - 2 * int(p["name"] == gp) - int(adj(p)) - 2 * int(p["status"] == "CV"))
             cases = []
             for p in pipes[:npipes]:
                 for f in fractions_for(ctx.rng, d, p, nfr):
@@ -518,6 +525,12 @@ class SplitRunner:
             ctx.count("split:%s:%s:%s" % ("break" if case["brk"] else "split", "end" if case["at_end"] else "start", cls))
             if p:
                 ctx.count("pipe:%s%s%s" % ("verts" if p[0]["verts"] else "plain", ":cv" if p[0]["cv"] else "", ":closed" if p[0]["status"] == "CLOSED" else ""))
+                if any(p[0]["a"] in (o["a"], o["b"]) or p[0]["b"] in (o["a"], o["b"]) for o in d["pumps"] + d["valves"]):
+                    ctx.count("pipe:next-to-pump-or-valve")
+                if p[0]["status"] == "CV":
+                    ctx.count("pipe:initial-status-CV")
+                if case["brk"] and p[0]["verts"] and case["f"] in (0.0, 1.0):
+                    ctx.count("split:break-with-vertices-at-%d" % int(case["f"]))
                 if kinds[p[0]["a"]] != "J" or kinds[p[0]["b"]] != "J":
                     ctx.count("pipe:end-%s" % "".join(sorted(kinds[p[0]["a"]] + kinds[p[0]["b"]])))
             self.lines.append(split_line(v0, case, sl))
@@ -846,7 +859,8 @@ def gen_skel_cfg(rng, d, thorough=False):
     pn = [p["name"] for p in d["pipes"]]
     jn = [n["name"] for n in d["nodes"] if n["kind"] == "J"]
     return dict(thr=thr, branch=rng.random() < 0.8, series=rng.random() < 0.8, parallel=rng.random() < 0.8,
-                max_cycles=rng.choice([None, None, 0, 1, 2]), use_epanet=(rng.random() < (0.5 if thorough else 0.15)),
+                max_cycles=rng.choice([None, None, 0, 1, 2]), use_epanet=(rng.random() < (0.5 if thorough else 0.2)),
+                return_map=rng.random() < 0.8,
                 pipes_excl=rng.sample(pn, rng.randint(0, min(2, len(pn)))) if rng.random() < 0.4 else [],
                 juncs_excl=rng.sample(jn, rng.randint(0, min(2, len(jn)))) if rng.random() < 0.4 else [],
                 return_copy=rng.random() < 0.7)
@@ -897,10 +911,18 @@ class SkelRunner:
             with Trace(wntr) as tr, warnings.catch_warnings():
                 warnings.simplefilter("ignore")
                 try:
-                    w2, smap = wntr.morph.skeletonize(wn, cfg["thr"], branch_trim=cfg["branch"], series_pipe_merge=cfg["series"],
-                                                      parallel_pipe_merge=cfg["parallel"], max_cycles=cfg["max_cycles"], use_epanet=cfg["use_epanet"],
-                                                      pipes_to_exclude=list(cfg["pipes_excl"]), junctions_to_exclude=list(cfg["juncs_excl"]),
-                                                      return_map=True, return_copy=cfg["return_copy"])
+                    want_map = cfg.get("return_map", True)
+                    out = wntr.morph.skeletonize(wn, cfg["thr"], branch_trim=cfg["branch"], series_pipe_merge=cfg["series"],
+                                                 parallel_pipe_merge=cfg["parallel"], max_cycles=cfg["max_cycles"], use_epanet=cfg["use_epanet"],
+                                                 pipes_to_exclude=list(cfg["pipes_excl"]), junctions_to_exclude=list(cfg["juncs_excl"]),
+                                                 return_map=want_map, return_copy=cfg["return_copy"])
+                    if want_map:
+                        w2, smap = out
+                    else:  # only the model comes back; the map is what the model predicts (checked against SkelInv all the same)
+                        w2, smap = out, None
+                        if isinstance(out, tuple):
+                            failures.append(Failure("skel-return-map", "skeletonize(return_map=False) returned a tuple", rep))
+                            return
                 except Exception as e:
                     ctx.count("skel:raised:%s" % type(e).__name__)
                     return
@@ -942,6 +964,15 @@ class SkelRunner:
                                             dict(rep, observed=[t, a, b])))
                     break
         orig_names = [n[0] for n in v0["nodes"]]
+        ctx.count("skel:return_map=%s" % (smap is not None))
+        if smap is None:  # no map returned: a placeholder partition lets the driver judge retention and demands only
+            kept = [n for n in orig_names if n in have_n]
+            smap = {n: ([n] if n in have_n else []) for n in orig_names}
+            if kept:
+                smap[kept[0]] = smap[kept[0]] + [n for n in orig_names if n not in have_n]
+            no_map = True
+        else:
+            no_map = False
         flat = [x for k in smap for x in smap[k]]
         if sorted(flat) != sorted(orig_names) or sorted(smap.keys()) != sorted(orig_names):
             miss = sorted(set(orig_names) - set(flat))
@@ -982,7 +1013,7 @@ class SkelRunner:
         head = "%s | %s | %s | %s" % (fmt_snodes(v0["nodes"]), fmt_slinks(v0["links"]), " ".join(jx), " ".join(px))
         self.lines.append("skelrun | %s | %s | %s" % (head, _fr(cfg["thr"]), ";".join(",".join(o) for o in ops)))
         self.lines.append("skelora | %s | %s | %s | %s" % (head, fmt_snodes(v1["nodes"]), fmt_slinks(v1["links"]), fmt_map(mkeys)))
-        self.pending.append((d, cfg, v1, mkeys, ops, rep))
+        self.pending.append((d, cfg, v1, None if no_map else mkeys, ops, rep))
         if len(ctx.samples) < 4 and ops:
             ctx.sample(dict(kind="skeletonize", cfg=cfg, nodes_before=len(v0["nodes"]), nodes_after=len(v1["nodes"]), ops=ops[:8],
                             map={k: v for k, v in mkeys if len(v) > 1}))
@@ -1038,7 +1069,7 @@ class SkelRunner:
             if a[:3] != b[:3] or a[6:] != b[6:] or not all(close(a[i], b[i]) for i in (3, 4, 5)):
                 return "link %s: model %s impl %s" % (k, [str(x) if isinstance(x, Fraction) else x for x in a], b)
         mm = [(t.split("=")[0], [x for x in t.split("=")[1].split(" ") if x]) for t in ms.split(";") if t]
-        if mm != mkeys:
+        if mkeys is not None and mm != mkeys:
             return "skeleton map: model %s impl %s" % (mm, mkeys)
         return None
 
@@ -1050,7 +1081,7 @@ class C19(Check):
     pid = "C19"
     level = "proof"
     prop_modules = ["WntrModel.Props.C19"]
-    extra_targets = ["WntrModel.Model.Morph"]
+    extra_targets = ["WntrModel.Model.Morph", "WntrModel.Gen.MorphShape"]
     manifest = dict(
         category="proof",
         text="Lean theorems over the model of _split_or_break_pipe and of _Skeletonize, for every network state, pipe, fraction in [0,1] "
@@ -1093,6 +1124,7 @@ class C19(Check):
         "interior fraction / at least one skeletonization step performed"
     )
     trusted_base = [
+        "translator harness/props/c19_translate.py (ast of wntr/morph/link.py, wntr/morph/skel.py -> Gen/MorphShape.lean)",
         "correspondence harness harness/props/c19.py (incl. the in-process recording of remove_link/remove_node/add_pipe during skeletonize)",
         "binary64 sqrt / products of the implementation are compared with the rational model at relative 1e-9",
         "WNTRSimulator (Newton, TOL 1e-10) for the before/after comparison of a split; wntr.metrics.expected_demand for the demand totals",
@@ -1104,7 +1136,16 @@ class C19(Check):
     ]
 
     def translate(self, ctx):
-        return
+        """wntr/morph/link.py + skel.py -> Gen/MorphShape.lean (new-pipe argument sources, length / vertex assignments, comparison
+        operators, and verbatim guards / statements of every operation); Props/C19 proves it equal to the shape the model evaluates"""
+        import c19_translate
+
+        try:
+            text = c19_translate.gen_file(vlib.REPO)
+        except (c19_translate.Bad, SyntaxError, KeyError, IndexError) as e:
+            raise vlib.BrokenTie("c19_translate cannot read wntr/morph/link.py / skel.py: %s" % e)
+        vlib.write_if_changed(os.path.join(vlib.GEN, "MorphShape.lean"), text)
+        ctx.cov["translator"] = "Gen/MorphShape.lean: %d lines from wntr/morph/link.py, wntr/morph/skel.py" % text.count("\n")
 
     def save_corpus(self, item):
         d = os.path.join(vlib.CORPUS, "C19")
@@ -1198,7 +1239,7 @@ class C19(Check):
     def correspondence(self, ctx):
         failures, broken = [], []
         if ctx.quick:
-            self._run(ctx, failures, broken, n_split=12, n_skel=55, n_hyd=25, thorough=False)
+            self._run(ctx, failures, broken, n_split=10, n_skel=45, n_hyd=22, thorough=False)
         else:
             self._run(ctx, failures, broken, n_split=150, n_skel=800, n_hyd=250, thorough=True)
         return failures, broken
